@@ -6,7 +6,7 @@
     vp8desc    n s pid x  opt(M id)  opt(tl0)  opt(tid y)  opt(keyidx)  ign0 ignX ignTK
     depobs M   res(bytes) M head tail0 tail1 auxPanic freshSame twinSame
     c11.dec    vp8desc payload k wire          => res(bytes) vp8md head resZ(bytes)
-    c11.rt     enable warm calls               => <n> (<m> (bytes res(bytes) vp8md head resZ(bytes))*)*
+    c11.rt     enable warm flipAt calls              => <n> (<m> (bytes res(bytes) vp8md head resZ(bytes))*)*
                (resZ: what a second receiver with SetZeroAllocation(true), fed the same packets, returned)
     c08.vp8    enable calls                    => <n> PayObs*
     c09.vp8    <n> obytes*                     => <n> (depobs vp8md)*
@@ -124,13 +124,16 @@ theorem c11RtZ_of_rt (e : Bool) (w : Nat) (cs : List (UInt16 × Option Bytes)) (
   have h2 : c11Zero (c11Pair o) = o := by simp [c11Zero, c11Pair, Function.comp_def]
   simp [c11RtZ, h1, h2, h]
 
+/-- `enable warm flipAt calls`: the first `flipAt ≤ warm` of the earlier frames were sent with the
+    public field `EnablePictureID` at the other value, which the caller then set by hand; the
+    property's demand is unchanged (the running id counts frames). -/
 def c11Rt : Handler :=
   mkHandler
-    (do let e ← Rd.bool; let w ← Rd.nat; let cs ← rdCalls; pure (e, w, cs))
+    (do let e ← Rd.bool; let w ← Rd.nat; let fl ← Rd.nat; let cs ← rdCalls; pure (e, w, fl, cs))
     (Rd.list (Rd.list (do let fr ← rdVP8Frag; let rz ← Rd.resC Rd.bytes; pure (fr, rz))))
-    (fun (e, w, cs) => c11Pair (C11.obsRt e w cs))
-    (fun (e, w, cs) o => c11RtZ e w cs o)
-    (fun (e, w, cs) => c11RtWF e w cs)
+    (fun (e, w, fl, cs) => c11Pair (C11.obsRtFlip e w fl cs))
+    (fun (e, w, _, cs) o => c11RtZ e w cs o)
+    (fun (e, w, fl, cs) => decide (fl ≤ w) && c11RtWF e w cs)
 
 def c08Vp8 : Handler :=
   mkHandler (do let e ← Rd.bool; let cs ← rdCalls; pure (e, cs)) rdPayObsList
